@@ -97,6 +97,23 @@ def run(ck):
     ok = len(jn) == 1 and len(tests) == 1 and cfg.edge_dominates(f, tests[0].id, 0, jn[0])
     ck.ob("C09-R2", "Worker::~Worker/joins", ok, f.loc, f, "if (thread.joinable()) thread.join()")
 
+    # destructor: the acceptor thread is joined before the listening socket it polls is closed
+    f = lib.single(prog, L + "~Listener")
+    dom = cfg.dominators(f)
+    jn = [e for e in f.calls(lambda e: (e.get("callee") or "") == "std::thread::join" and strip_tmpl((e.get("recv") or {}).get("f") or "") == L + "acceptThread")]
+    cl = [e for e in f.calls(lambda e: (e.get("callee") or "") == "close" and not (e.get("cfile") or "").startswith(facts.REPO)
+                             and e.get("args") and strip_tmpl(e["args"][0].get("f") or "") == L + "listen_fd")]
+    sd = [e for e in f.calls(lambda e: (e.get("callee") or "") == L + "shutdown")]
+    ck.require(jn and cl, "join / close(listen_fd) not found in Listener::~Listener")
+    # every path to close() has passed the joinable() test (and joined when joinable)
+    jtests = [b for b in f.blocks.values() if b.term and b.term.get("k") == "if" and "c:std::thread::joinable" in (b.term.get("refs") or [])]
+    ok = len(jtests) == 1 and all(jtests[0].id in dom.get(c.block, ()) and jtests[0].id != c.block for c in cl) and \
+        all(cfg.edge_dominates(f, jtests[0].id, 0, j) for j in jn) and not any(cfg.edge_dominates(f, jtests[0].id, 0, c) or
+                                                                             any(x is c for x in cfg.events_from_block(f, jtests[0].succs[0], stop=lambda e: any(e is j for j in jn))) for c in cl)
+    ck.ob("C09-R2", "Listener::~Listener/join-before-close", ok, cl[0].loc, f,
+          "acceptThread is joined (when joinable) before close(listen_fd)" if ok else
+          "close(listen_fd) can run while the acceptor thread is still polling that descriptor: accept4 on a closed fd terminates the process")
+
     # ---------------- R3 ----------------
     def off_thread_arm(fn):
         """successor block taken when !isInRightThread"""
@@ -121,6 +138,19 @@ def run(ck):
         d = [x for x in fn.events("decl") if x.get("var") == "isInRightThread"]
         okd = bool(d) and "get_id" in ((d[0].get("init") or {}).get("t") or "") and "thread()" in ((d[0].get("init") or {}).get("t") or "")
         ck.ob("C09-R3", "%s/thread-test" % name, okd, d[0].loc if d else fn.loc, fn, "isInRightThread = (this_thread::get_id() == context().thread())", nontrivial=False)
+    # toWrite is the one table both the acceptor thread (handleNewPeer) and the worker touch: always under its lock
+    nacc = 0
+    for fn in [x for x in prog.funcs.values() if x.base.startswith(T) and not x.is_lambda]:
+        acc = [e for e in fn.events("member") if strip_tmpl(e.get("f") or "") == T + "toWrite"]
+        if not acc:
+            continue
+        ls = lib.locksets(fn, lam_unlocks=lib.lambda_unlocks(prog, fn))
+        for e in acc:
+            nacc += 1
+            ok = lib.holds(ls.get((e.block, e.idx)), T + "toWriteLock", "this")
+            ck.ob("C09-R3", "toWrite-locked@%s" % fn.base.replace(T, ""), ok, e.loc, fn, "under toWriteLock" if ok else
+                  "toWrite is accessed without toWriteLock: handleNewPeer runs on the acceptor thread, the rest on the worker")
+    ck.require(nacc >= 5, "accesses to Transport::toWrite analysed: %d" % nacc)
     for f in prog.find(T + "asyncWrite", 1):
         bodies = [f] + prog.lambdas_in(f)
         touch = [e for g in bodies for e in g.events("member") if strip_tmpl(e.get("f") or "") in (T + "toWrite", T + "peers", T + "timers")]
